@@ -11,7 +11,9 @@ blocks.
            FastSimulation._compiled()'s generated source == Gen/FastMask.v's decision
            (fast_elides); sampled nets x operand values: Coq Sim/CLimb.v builders (climb_check)
            == the value the C simulator shows (through an exact-width probe Output when there
-           is one, else Simulation's value).
+           is one, else Simulation's value); Coq Sim/CEmitModel.v (cemit_case: the whole emitted C
+           program on limb arrays) == pyrtl.CompiledSimulation on every wire it can show, every
+           cycle, and the final memory (and == pyrtl.Simulation on ALL wires where c_wfb holds).
  search(b) FastSimulation / CompiledSimulation vs Simulation AND vs Netlist/Sem.v; a
            disagreement is attributed to the first net (block order) whose observable
            destination differs -> signature '<simulator>:<op>[:limb]', with dedicated
@@ -59,6 +61,8 @@ ASSUMPTIONS = [
     '(design, default) pairs are excluded from the Compiled comparison only',
     'FastModel: every select has a non-empty op_param and every register has an `r` net (Block.sanity_check)',
     'the C hash map (create_hash_map/insert/lookup) is modelled as a finite map and exercised only behaviourally',
+    'CEmitModel applies the `@` inserts in net-list order; the C code iterates a Python set (the generator only '
+    'builds write ports with provably distinct addresses)',
     'Coq-side evaluation (FastModel / Sem) is restricted to blocks with at most MAX_COQ_NETS nets; larger '
     'synthesized blocks get the three-simulator differential only',
     'on a PostSynthBlock, Simulation is given memory_value_map keyed by the key of block.mem_map (the only key '
